@@ -244,8 +244,6 @@ Proof.
     all: try (apply de_int_lower in H; exact H).
     all: try (destruct w' as [[]| | | | | | | | |]; try (inv; fail); apply de_nat_lower in H; exact H).
     all: try (leaf IH IHskip; fail).
-    all: match goal with H : _ = (_, Ok (_, _)) |- _ => let t := type of H in idtac "REMAINING"; idtac t end.
-    all: admit.
   - inv.
   - (* opt *) leaf IH IHskip.
   - (* vec *)
@@ -277,4 +275,228 @@ Proof.
   - (* service *) leaf IH IHskip.
   - inv.
   - (* future *) leaf IH IHskip.
+Qed.
+
+(* ---------- message level ---------- *)
+Lemma de_args_loop_lower f E lc : forall tes tws bs l c c' vs tws' r, fits bs ->
+  de_args_loop f E lc tes tws bs l c = (c', Ok (vs, tws', r)) -> charged true c c' (nodes_list vs) /\ shorter r bs.
+Proof.
+  induction tes as [|te tes IH]; intros tws bs l c c' vs tws' r Hf H; cbn [de_args_loop] in H.
+  - inv. split; [apply charged_0|apply shorter_refl].
+  - destruct tws as [|tw tws0]; inv; split_pairs;
+      match goal with H : de _ _ _ _ _ _ _ _ _ _ = _ |- _ => apply de_lower in H; [destruct H as [? ?]|assumption] end;
+      match goal with H : de_args_loop _ _ _ _ _ _ _ _ = _ |- _ => apply IH in H; [destruct H as [? ?]|eapply fits_shorter; eassumption] end;
+      unfold nodes_list in *; cbn [fold_right] in *; (split; [|eapply shorter_trans; eassumption]);
+      unfold charged in *; cbn [fst snd] in *; lia.
+Qed.
+Lemma de_args_unknown_lower f E : forall tws bs l c c' vs r, fits bs ->
+  de_args_unknown f E tws bs l c = (c', Ok (vs, r)) -> charged true c c' (nodes_list vs) /\ shorter r bs.
+Proof.
+  induction tws as [|tw tws IH]; intros bs l c c' vs r Hf H; cbn [de_args_unknown] in H.
+  - inv. split; [apply charged_0|apply shorter_refl].
+  - inv; split_pairs.
+    match goal with H : de _ _ _ _ _ _ _ _ _ _ = _ |- _ => apply de_lower in H; [destruct H as [? ?]|assumption] end.
+    match goal with H : de_args_unknown _ _ _ _ _ _ = _ |- _ => apply IH in H; [destruct H as [? ?]|eapply fits_shorter; eassumption] end.
+    unfold nodes_list in *; cbn [fold_right] in *. split; [|eapply shorter_trans; eassumption].
+    unfold charged in *; cbn [fst snd] in *; lia.
+Qed.
+(* what done() skips is charged as well: at least one unit per skipped value, to both budgets *)
+Lemma de_done_incr f E : forall tws bs, Incr (de_done f E tws bs).
+Proof.
+  induction tws as [|tw r IH]; intros bs; cbn [de_done]; [destruct bs; [apply incr_ret|apply incr_failM]|].
+  apply incr_bind; [apply incr_de|intros; apply IH].
+Qed.
+
+(* every reader of the header only consumes: what it leaves is no longer than what it was given *)
+Definition Consumes {A} (rd : list N -> res (A * list N)) : Prop := forall bs a r, rd bs = Ok (a, r) -> shorter r bs.
+Lemma consumes_read_u64 : Consumes read_u64.
+Proof. intros bs a r H. apply read_u64_len in H as [H _]. exact H. Qed.
+Lemma consumes_read_i64 : Consumes read_i64.
+Proof.
+  intros bs a r H. unfold read_i64 in H. destruct (split_leb bs) as [[p rest]|] eqn:E; [|discriminate].
+  destruct (_ && _); [|discriminate]. inversion H; subst. apply split_leb_len in E as [E _]. unfold shorter; lia.
+Qed.
+Lemma consumes_bind {A B} (rd : list N -> res (A * list N)) (k : A -> list N -> res (B * list N)) :
+  Consumes rd -> (forall a, Consumes (k a)) -> Consumes (fun bs => do xr <- rd bs; k (fst xr) (snd xr)).
+Proof.
+  intros H1 H2 bs b r H. unfold bind in H. destruct (rd bs) as [[a r1]|e| |] eqn:E; try discriminate.
+  cbn [fst snd] in H. apply H1 in E. apply H2 in H. eapply shorter_trans; eassumption.
+Qed.
+Lemma consumes_read_n {A} (rd : list N -> res (A * list N)) : Consumes rd -> forall k, Consumes (read_n rd k).
+Proof.
+  intros Hr k; induction k as [|k IH]; intros bs a r H; cbn [read_n] in H.
+  - inversion H; subst. apply shorter_refl.
+  - unfold bind in H. destruct (rd bs) as [[x r1]|e| |] eqn:E1; try discriminate. cbn [fst snd] in H.
+    destruct (read_n rd k r1) as [[xs r2]|e| |] eqn:E2; try discriminate. cbn [fst snd] in H. inversion H; subst.
+    apply Hr in E1. apply IH in E2. eapply shorter_trans; eassumption.
+Qed.
+Lemma consumes_read_nN {A} (rd : list N -> res (A * list N)) k : Consumes rd -> Consumes (read_nN rd k).
+Proof. intros Hr bs a r H. unfold read_nN in H. destruct (_ <? k); [discriminate|]. eapply consumes_read_n; eassumption. Qed.
+Lemma consumes_read_index : Consumes read_index.
+Proof.
+  intros bs a r H. unfold read_index, bind in H. destruct (read_i64 bs) as [[i r1]|e| |] eqn:E; try discriminate. cbn [fst snd] in H.
+  apply consumes_read_i64 in E. destruct (0 <=? i)%Z; [inversion H; subst; exact E|].
+  destruct (prim_of_code _); [inversion H; subst; exact E|discriminate].
+Qed.
+Lemma consumes_read_u32 : Consumes read_u32.
+Proof.
+  intros bs a r H. unfold read_u32, bind in H. destruct (read_u64 bs) as [[i r1]|e| |] eqn:E; try discriminate. cbn [fst] in H.
+  destruct (i <? 2 ^ 32); [|discriminate]. inversion H; subst. apply consumes_read_u64 in E. exact E.
+Qed.
+Lemma consumes_read_field : Consumes read_field.
+Proof.
+  intros bs a r H. unfold read_field, bind in H. destruct (read_u32 bs) as [[i r1]|e| |] eqn:E1; try discriminate. cbn [fst snd] in H.
+  destruct (read_index r1) as [[t r2]|e| |] eqn:E2; try discriminate. cbn [fst snd] in H. inversion H; subst.
+  apply consumes_read_u32 in E1. apply consumes_read_index in E2. eapply shorter_trans; eassumption.
+Qed.
+Lemma consumes_read_fields : Consumes read_fields.
+Proof.
+  intros bs a r H. unfold read_fields, bind in H. destruct (read_u32 bs) as [[i r1]|e| |] eqn:E1; try discriminate. cbn [fst snd] in H.
+  apply consumes_read_u32 in E1. apply (consumes_read_nN _ _ consumes_read_field) in H. eapply shorter_trans; eassumption.
+Qed.
+Lemma consumes_take k : Consumes (take_bytes k).
+Proof. intros bs a r H. apply take_bytes_len in H as [_ H]. unfold shorter; lia. Qed.
+Lemma consumes_read_meth : Consumes read_meth.
+Proof.
+  intros bs a r H. unfold read_meth, read_count, bind in H. destruct (read_u64 bs) as [[n r1]|e| |] eqn:E1; try discriminate. cbn [fst snd] in H.
+  destruct (take_bytes n r1) as [[nm r2]|e| |] eqn:E2; try discriminate. cbn [fst snd] in H.
+  destruct (utf8_valid nm); [|discriminate].
+  destruct (read_index r2) as [[t r3]|e| |] eqn:E3; try discriminate. cbn [fst snd] in H. inversion H; subst.
+  apply consumes_read_u64 in E1. apply consumes_take in E2. apply consumes_read_index in E3.
+  eapply shorter_trans; [eassumption|]. eapply shorter_trans; eassumption.
+Qed.
+Lemma consumes_read_mode : Consumes read_mode.
+Proof. intros bs a r H. unfold read_mode in H. destruct bs as [|m r0]; [discriminate|]. destruct (_ && _); [|discriminate]. inversion H; subst. unfold shorter; cbn; lia. Qed.
+Lemma shorter_cons b r bs : shorter r bs -> shorter r (b :: bs). Proof. unfold shorter; cbn; lia. Qed.
+Lemma consumes_read_entry : Consumes read_entry.
+Proof.
+  intros bs a r H. unfold read_entry in H. destruct bs as [|b r0]; [discriminate|].
+  repeat match type of H with (if ?c then _ else _) = _ => destruct c end.
+  - unfold bind in H. destruct (read_index r0) as [[x r1]|e| |] eqn:E; try discriminate. inversion H; subst. apply shorter_cons. eapply consumes_read_index; eassumption.
+  - unfold bind in H. destruct (read_index r0) as [[x r1]|e| |] eqn:E; try discriminate. inversion H; subst. apply shorter_cons. eapply consumes_read_index; eassumption.
+  - unfold bind in H. destruct (read_fields r0) as [[x r1]|e| |] eqn:E; try discriminate. inversion H; subst. apply shorter_cons. eapply consumes_read_fields; eassumption.
+  - unfold bind in H. destruct (read_fields r0) as [[x r1]|e| |] eqn:E; try discriminate. inversion H; subst. apply shorter_cons. eapply consumes_read_fields; eassumption.
+  - unfold bind, read_count in H.
+    destruct (read_u64 r0) as [[na r1]|e| |] eqn:E1; try discriminate. cbn [fst snd] in H.
+    destruct (read_nN read_index na r1) as [[aa r2]|e| |] eqn:E2; try discriminate. cbn [fst snd] in H.
+    destruct (read_u64 r2) as [[nr r3]|e| |] eqn:E3; try discriminate. cbn [fst snd] in H.
+    destruct (read_nN read_index nr r3) as [[rr r4]|e| |] eqn:E4; try discriminate. cbn [fst snd] in H.
+    destruct r4 as [|n r5]; [discriminate|]. destruct (n <=? 1); [|discriminate].
+    destruct (read_n read_mode (N.to_nat n) r5) as [[mm r6]|e| |] eqn:E5; try discriminate. cbn [fst snd] in H. inversion H; subst.
+    apply consumes_read_u64 in E1. apply (consumes_read_nN _ _ consumes_read_index) in E2. apply consumes_read_u64 in E3.
+    apply (consumes_read_nN _ _ consumes_read_index) in E4. apply (consumes_read_n _ consumes_read_mode) in E5.
+    unfold shorter in *. cbn [length] in *. lia.
+  - unfold bind, read_count in H.
+    destruct (read_u64 r0) as [[n r1]|e| |] eqn:E1; try discriminate. cbn [fst snd] in H.
+    destruct (read_nN read_meth n r1) as [[ms r2]|e| |] eqn:E2; try discriminate. cbn [fst snd] in H. inversion H; subst.
+    apply consumes_read_u64 in E1. apply (consumes_read_nN _ _ consumes_read_meth) in E2. unfold shorter in *. cbn [length] in *. lia.
+  - unfold bind in H.
+    destruct (read_i64 (b :: r0)) as [[oc r1]|e| |] eqn:E1; try discriminate. cbn [fst snd] in H.
+    destruct (oc <? -24)%Z; [|discriminate].
+    destruct (read_u64 r1) as [[n r2]|e| |] eqn:E2; try discriminate. cbn [fst snd] in H.
+    destruct (take_bytes n r2) as [[bl r3]|e| |] eqn:E3; try discriminate. cbn [fst snd] in H. inversion H; subst.
+    apply consumes_read_i64 in E1. apply consumes_read_u64 in E2. apply consumes_take in E3. unfold shorter in *. cbn [length] in *. lia.
+Qed.
+Lemma dec_header_shorter rp mt bs E ts body : dec_header_gen rp mt bs = Ok (E, ts, body) -> shorter body bs.
+Proof.
+  unfold dec_header_gen. intros H.
+  destruct bs as [|b0 bs]; [discriminate|]. destruct b0 as [|p0]; [discriminate|].
+  do 7 (destruct p0 as [p0|p0|]; try discriminate).
+  destruct bs as [|b1 bs]; [discriminate|]. destruct b1 as [|p1]; [discriminate|].
+  do 7 (destruct p1 as [p1|p1|]; try discriminate).
+  destruct bs as [|b2 bs]; [discriminate|]. destruct b2 as [|p2]; [discriminate|].
+  do 7 (destruct p2 as [p2|p2|]; try discriminate).
+  destruct bs as [|b3 bs]; [discriminate|]. destruct b3 as [|p3]; [discriminate|].
+  do 7 (destruct p3 as [p3|p3|]; try discriminate).
+  unfold bind, read_count in H.
+  destruct (read_u64 bs) as [[n r1]|e| |] eqn:E1; try discriminate. cbn [fst snd] in H.
+  destruct (mt <? n); [discriminate|].
+  destruct (read_nN read_entry n r1) as [[es r2]|e| |] eqn:E2; try discriminate. cbn [fst snd] in H.
+  destruct (read_u64 r2) as [[na r3]|e| |] eqn:E3; try discriminate. cbn [fst snd] in H.
+  destruct (read_nN read_index na r3) as [[args r4]|e| |] eqn:E4; try discriminate. cbn [fst snd] in H.
+  destruct (conv_table n 0 es); [|discriminate]. destruct (meths_are_funcs _); [|discriminate].
+  destruct (conv_refs n args); [|discriminate]. inversion H; subst.
+  apply consumes_read_u64 in E1. apply (consumes_read_nN _ _ consumes_read_entry) in E2. apply consumes_read_u64 in E3.
+  apply (consumes_read_nN _ _ consumes_read_index) in E4. unfold shorter in *. cbn [length] in *. lia.
+Qed.
+
+(* C07, lower bound: a successful untyped decode has been charged, on BOTH budgets, at least the number of values it
+   returns (every node of every returned value counts 1, zero-sized ones included). *)
+Theorem de_message_lower mt Ee lc tes bs l c c' vs :
+  fits bs -> de_message mt Ee lc tes bs l c = (c', Ok vs) ->
+  fst c + nodes_list vs <= fst c' /\ snd c + nodes_list vs <= snd c'.
+Proof.
+  intros Hf H. unfold de_message in H.
+  apply bind_ok in H as ([[Ew tws] body] & c0 & H0 & H). apply liftR_ok in H0 as [-> H0].
+  apply bind_ok in H as (t1 & c1 & H1 & H). apply add_cost_ok in H1. apply charged_cle in H1.
+  apply bind_ok in H as ([[vs0 tws'] rest] & c2 & H2 & H).
+  apply bind_ok in H as (t3 & c3 & H3 & H). apply ret_ok in H as [-> ->].
+  apply (incr_ok _ _ _ _ _ (de_done_incr _ _ _ _)) in H3.
+  assert (Hb : fits body) by (eapply fits_shorter; [eapply dec_header_shorter; exact H0|exact Hf]).
+  apply de_args_loop_lower in H2 as [H2 _]; [|exact Hb].
+  unfold charged, cle in *. cbn [fst snd] in *. lia.
+Qed.
+
+Theorem de_message_untyped_lower mt bs l c c' vs :
+  fits bs -> de_message_untyped mt bs l c = (c', Ok vs) ->
+  fst c + nodes_list vs <= fst c' /\ snd c + nodes_list vs <= snd c'.
+Proof.
+  intros Hf H. unfold de_message_untyped in H.
+  apply bind_ok in H as ([[Ew tws] body] & c0 & H0 & H). apply liftR_ok in H0 as [-> H0].
+  apply bind_ok in H as (t1 & c1 & H1 & H). apply add_cost_ok in H1. apply charged_cle in H1.
+  apply bind_ok in H as ([vs0 rest] & c2 & H2 & H).
+  apply bind_ok in H as (t3 & c3 & H3 & H). apply ret_ok in H as [-> ->].
+  apply (incr_ok _ _ _ _ _ (de_done_incr _ _ _ _)) in H3.
+  assert (Hb : fits body) by (eapply fits_shorter; [eapply dec_header_shorter; exact H0|exact Hf]).
+  apply de_args_unknown_lower in H2 as [H2 _]; [|exact Hb].
+  unfold charged, cle in *. cbn [fst snd] in *. lia.
+Qed.
+
+(* ---------- the budget is never overdrawn, message level ---------- *)
+Lemma resp_de_args_loop f E lc : forall tes tws bs, Resp (de_args_loop f E lc tes tws bs).
+Proof.
+  induction tes as [|te tes IH]; intros tws bs; cbn [de_args_loop]; [apply resp_ret|].
+  apply resp_bind; [apply resp_tr|intros e'].
+  destruct tws as [|tw tws'].
+  - destruct (optional_ty e'); [|apply resp_failM].
+    apply resp_bind; [apply resp_de|intros]. apply resp_bind; [apply IH|intros; apply resp_ret].
+  - apply resp_bind; [apply resp_de|intros]. apply resp_bind; [apply IH|intros; apply resp_ret].
+Qed.
+Lemma resp_de_done f E : forall tws bs, Resp (de_done f E tws bs).
+Proof.
+  induction tws as [|tw r IH]; intros bs; cbn [de_done]; [destruct bs; [apply resp_ret|apply resp_failM]|].
+  apply resp_bind; [apply resp_de|intros; apply IH].
+Qed.
+Lemma resp_de_args_unknown f E : forall tws bs, Resp (de_args_unknown f E tws bs).
+Proof.
+  induction tws as [|tw r IH]; intros bs; cbn [de_args_unknown]; [apply resp_ret|].
+  apply resp_bind; [apply resp_de|intros]. apply resp_bind; [apply IH|intros; apply resp_ret].
+Qed.
+Theorem resp_de_message mt Ee lc tes bs : Resp (de_message mt Ee lc tes bs).
+Proof.
+  unfold de_message. apply resp_bind; [apply resp_liftR|intros [[Ew tws] body]].
+  apply resp_bind; [apply resp_add_cost|intros _].
+  apply resp_bind; [apply resp_de_args_loop|intros [[vs tws'] rest]].
+  apply resp_bind; [apply resp_de_done|intros; apply resp_ret].
+Qed.
+Theorem resp_de_message_untyped mt bs : Resp (de_message_untyped mt bs).
+Proof.
+  unfold de_message_untyped. apply resp_bind; [apply resp_liftR|intros [[Ew tws] body]].
+  apply resp_bind; [apply resp_add_cost|intros _].
+  apply resp_bind; [apply resp_de_args_unknown|intros r].
+  apply resp_bind; [apply resp_de_done|intros; apply resp_ret].
+Qed.
+
+(* the work bound: under a skipping quota q (resp. decoding quota q) a successful decode from fresh counters returns at
+   most q values in total -- zero-sized elements included *)
+Theorem de_message_values_bounded mt Ee lc tes bs qd qs c' vs :
+  fits bs -> de_message mt Ee lc tes bs (qd, qs) (0, 0) = (c', Ok vs) ->
+  match qd with Some q => nodes_list vs <= q | None => True end /\
+  match qs with Some q => nodes_list vs <= q | None => True end.
+Proof.
+  intros Hf H. pose proof (de_message_lower _ _ _ _ _ _ _ _ _ Hf H) as [L1 L2].
+  pose proof (resp_de_message mt Ee lc tes bs (qd, qs) (0, 0)) as R. rewrite H in R. cbn [fst snd] in *.
+  assert (W : within (qd, qs) (0, 0)) by (unfold within; cbn [fst snd]; destruct qd, qs; split; try exact I; lia).
+  specialize (R W). unfold within in R. cbn [fst snd] in R. destruct R as [R1 R2].
+  destruct qd, qs; split; try exact I; lia.
 Qed.
